@@ -251,7 +251,8 @@ NAMES = ['impose_bounds', 'bounded', 'discrete', 'integers', 'rounded', 'precisi
 
 def build(name, c, x=None):
     """-> (the transform in configuration c, held); with c['via'] it is decorated with decoys and updated to c
-    afterwards.  held = [(what, the object handed to mystic, an untouched copy of it)] for the `argument` clause"""
+    afterwards.  held = [(what, the object handed to mystic, an untouched copy of it)]: whether mystic changed the
+    caller's object is counted as an observation only (the property does not speak about it)"""
     held = []
     via = c.get('via')
     if not via:
@@ -269,7 +270,7 @@ def build(name, c, x=None):
         upd = getattr(t, UPD[name][f])
         val = lambda v: INTS[v] if f == 'ints' else contain(form, v)      # noqa: E731
         if twice:
-            upd(val(decoy(name, f, c, 0, 1)))
+            update(upd, val(decoy(name, f, c, 0, 1)))
             if c.get('precall') and x is not None and f == 'samples':
                 try:
                     t(copy.deepcopy(x))
@@ -277,8 +278,19 @@ def build(name, c, x=None):
                     pass
         arg = val(c[f])
         held.append(('%s-%s' % (f, form), arg, copy.deepcopy(arg)))
-        upd(arg)
+        update(upd, arg)
     return t, held
+
+
+class Refused(Exception):
+    """an updater method raised"""
+
+
+def update(upd, arg):
+    try:
+        upd(arg)
+    except Exception as e:      # noqa
+        raise Refused('%s(%r) raised %s: %s' % (getattr(upd, '__name__', 'updater'), arg, type(e).__name__, e))
 
 
 def build_plain(name, c, held=None):
@@ -355,7 +367,9 @@ def oracle(name, c, x, y, n):
     elif name == 'discrete':
         for i in S:
             d = abs(x[i] - y[i])
-            if y[i] not in c['samples'] or any(abs(x[i] - s) < d for s in c['samples']):
+            if x[i] in c['samples']:
+                y[i] == x[i] or add('fixed', i, '%r is a member of %r but moved to %r' % (x[i], sorted(c['samples']), y[i]))
+            elif y[i] not in c['samples'] or any(abs(x[i] - s) < d for s in c['samples']):
                 add('target', i, '%r -> %r is not the nearest member of %r' % (x[i], y[i], sorted(c['samples'])))
     elif name == 'integers':
         for i in S:
@@ -514,21 +528,23 @@ def check_case(case):
                                     (name == 'normalized' and abs(math.fsum(xs)) <= 1e-9 * math.fsum(map(abs, xs))) or
                                     (name != 'normalized' and name != 'with_mean' and max(xs) == min(xs)))
     seed_all(case['seed'])
-    t, held = build(name, c, mk(kind, xs))
+    try:
+        t, held = build(name, c, mk(kind, xs))
+    except Refused as e:        # a documented updater must accept list / tuple / array
+        return [(key('raises'), str(e))], True, None, []
     if c.get('hook'):           # the helper the decorator exposes (func.sorting / func.monotonic), used on its own
         t = (lambda h: lambda x: h(x, ascending=c['ascending']))(getattr(t, name))
-    unheld = lambda: [(P + name + '/argument#' + w, 'the %r handed over as %s is now %r' % (a0, w, a))    # noqa: E731
-                      for w, a, a0 in held if not same(a, a0)]
+    unheld = lambda: ['%s argument %s modified' % (name, w) for w, a, a0 in held if not same(a, a0)]      # noqa: E731
     try:
         y = plain(t(mk(kind, xs)))
     except Exception as e:      # noqa
         ok_abort = degenerate or (name in ('impose_unique', 'unique') and isinstance(e, ValueError)) or \
             (name == 'masked' and isinstance(e, KeyError))
         if ok_abort:
-            return [], False, '%s: %s' % (name, type(e).__name__)
-        return [(key('raises'), '%s: %s' % (type(e).__name__, e))] + unheld(), True, None
+            return [], False, '%s: %s' % (name, type(e).__name__), []
+        return [(key('raises'), '%s: %s' % (type(e).__name__, e))], True, None, unheld()
     if degenerate:
-        return [], False, None
+        return [], False, None, []
     x0 = plain(mk(kind, xs))
     out = [(key(cl), d) for cl, d in oracle(name, c, list(x0), list(y), n)]
     if name != 'masked' and not (name == 'suppressed' and not c['clip']) and not out:
@@ -541,7 +557,7 @@ def check_case(case):
                 out += [(key(cl, 'reuse'), d) for cl, d in oracle(name, c, list(x0), list(y3), n)]
         except Exception as e:      # noqa
             out.append((key('idempotent'), 'second application raised %s: %s' % (type(e).__name__, e)))
-    return out + unheld(), n > 0 and list(y) != list(xs), None
+    return out, n > 0 and list(y) != list(xs), None, unheld()
 
 
 # impose_as sub-cases that random generation reaches only now and then (kept so that the key set is seed-independent)
@@ -577,9 +593,11 @@ def gen_cases(seed, per):
 
 def work(chunk):
     res = Result('', '')
-    aborted = {}
+    aborted, observed = {}, {}
     for case in chunk:
-        viol, nontrivial, ab = check_case(case)
+        viol, nontrivial, ab, obs = check_case(case)
+        for o in obs:
+            observed[o] = observed.get(o, 0) + 1
         c = case['cfg']
         ik = 'none' if c.get('index', 0) is None else 'idx'
         res.case('%s|%s|n=%d|%s|%s' % (case['t'], case['kind'], len(case['x']), ik,
@@ -590,7 +608,7 @@ def work(chunk):
         for k, d in viol:
             res.violation(k, d, jsonable(case))
     p = res.part()
-    p['aborted'] = aborted
+    p['aborted'], p['observed'] = aborted, observed
     return p
 
 
@@ -606,12 +624,15 @@ def run(tier='quick', seed=0):
     cases = gen_cases(seed, per)
     random.Random(seed + 1).shuffle(cases)
     size = max(1, len(cases) // 64)
-    aborted = {}
+    aborted, observed = {}, {}
     for p in pmap(work, [cases[i:i + size] for i in range(0, len(cases), size)]):
         res.merge(p)
         for k, v in p['aborted'].items():
             aborted[k] = aborted.get(k, 0) + v
+        for k, v in p['observed'].items():
+            observed[k] = observed.get(k, 0) + v
     res.extra['aborted'] = aborted
+    res.extra['observations'] = observed     # not part of the property: mystic changed an object the caller handed over
     res.extra['transforms'] = NAMES
     return res.out()
 
